@@ -250,7 +250,10 @@ impl<'i> Comment<'i> {
             output_handler(raw);
         } else {
             output_handler(b"<!--");
-            output_handler(&self.text);
+            // NOTE: a zero-length chunk is the sink's end-of-output marker
+            if !self.text.is_empty() {
+                output_handler(&self.text);
+            }
             output_handler(b"-->");
         }
         Ok(())
